@@ -153,6 +153,22 @@ func (m *model) buildEvents(profile string, thorough bool) {
 			return out
 		}
 	}
+	// mixVote: every consensus member votes, the i-th one spelling the key as spell[i % len(spell)] (canonical, upper-case,
+	// mixed case ...): approvers that do NOT agree on one spelling.
+	mixVote := func(name, kind, method string, x *actor) {
+		spell := cat([]*actor{x}, al(x.Name+"^"), al(x.Name+"~"))
+		if len(spell) < 2 {
+			return
+		}
+		m.add(name+":"+x.Name, "same", func(pre *nmView) []txInfo {
+			var out []txInfo
+			for i, v := range pre.consensus(c) {
+				k := spell[i%len(spell)].Key
+				out = append(out, txInfo{tx: txPeer(method, k, v, v), kind: kind, keys: []string{k}, macro: true})
+			}
+			return out
+		})
+	}
 	apprAll := func(x *actor) {
 		m.add("apprAll:"+x.Name, "same", allVote("appr", []string{x.Key}, func(v *polyenv.Acct) *types.Transaction {
 			return txPeer(node_manager.APPROVE_CANDIDATE, x.Key, v, v)
@@ -180,18 +196,45 @@ func (m *model) buildEvents(profile string, thorough bool) {
 	switch profile {
 	case "epochs":
 		members := []*actor{V[0], V[1], A[0], A[1]}
-		extra := cat(al("V0^"), al("A0#")) // quick: alias encodings can register and be approved (not quit / black-listed)
 		if thorough {
-			members, extra = cat(V, A, c.Alias), nil
+			members = cat(V, A)
 		}
 		for _, a := range members {
 			reg(a)
 			apprAll(a)
 			quit(a)
 		}
-		for _, a := range extra {
-			reg(a)
-			apprAll(a)
+		// alias spellings as the key PARAMETER of every method (registration of a non-canonical spelling is refused since
+		// d070452; approve / unregister / white find their record by the DECODED bytes, quit / black look the string up in the pool)
+		if thorough {
+			for _, x := range c.Alias {
+				reg(x)
+				apprAll(x)
+				quit(x)
+				unreg(x)
+				whiteAll(x)
+			}
+			for _, b := range members {
+				mixVote("apprMix", "appr", node_manager.APPROVE_CANDIDATE, b)
+				mixVote("whiteMix", "white", node_manager.WHITE_NODE, b)
+			}
+		} else {
+			for _, x := range cat(al("A0^"), al("A0#")) {
+				reg(x)
+			}
+			for _, x := range cat(al("A0^"), al("A0~"), al("A0#"), al("V0^")) {
+				apprAll(x)
+			}
+			for _, x := range cat(al("A0^"), al("V0^")) {
+				quit(x)
+				whiteAll(x)
+				blackAll([]*actor{x}, "same")
+			}
+			for _, x := range al("A0^") {
+				unreg(x)
+			}
+			mixVote("apprMix", "appr", node_manager.APPROVE_CANDIDATE, A[0])
+			mixVote("whiteMix", "white", node_manager.WHITE_NODE, A[0])
 		}
 		unreg(A[0])
 		m.add("quit:V0/byO", "same", one(txInfo{tx: txPeer(node_manager.QUIT_NODE, V[0].Key, c.Out.A, c.Out.A), kind: "quit", keys: []string{V[0].Key}}))
@@ -269,6 +312,28 @@ func (m *model) buildEvents(profile string, thorough bool) {
 		}
 		quit(V[1])
 		quit(A[0])
+		// single votes / calls spelling the key differently
+		aliasOf := cat(al("A0^"))
+		if thorough {
+			aliasOf = cat(al("A0^"), al("A0~"), al("A0#"))
+		}
+		for _, x := range aliasOf {
+			for _, v := range voters {
+				if v.A != x.A {
+					m.add("appr:"+x.Name+"/"+v.Name, "same", one(txInfo{tx: txPeer(node_manager.APPROVE_CANDIDATE, x.Key, v.A, v.A), kind: "appr", keys: []string{x.Key}}))
+				}
+			}
+			unreg(x)
+			quit(x)
+		}
+		for _, x := range al("V0^") {
+			for _, v := range voters {
+				m.add("white:"+x.Name+"/"+v.Name, "same", one(txInfo{tx: txPeer(node_manager.WHITE_NODE, x.Key, v.A, v.A), kind: "white", keys: []string{x.Key}}))
+			}
+			for _, v := range voters[:2] {
+				m.add("black:"+x.Name+"/"+v.Name, "same", one(txInfo{tx: txBlack([]string{x.Key}, v.A), kind: "black", keys: []string{x.Key}}))
+			}
+		}
 		commits([]string{"same", "next"}, []string{"next", "b"})
 	default:
 		panic(profile)
@@ -478,7 +543,7 @@ func (m *model) checkTx(pre *nmView, t txInfo, res polyenv.Result, post *nmView,
 	blackedNow := map[string]bool{}
 	if t.kind == "black" {
 		for _, k := range t.keys {
-			blackedNow[k] = true
+			blackedNow[canonOfString(k)] = true
 		}
 	}
 	type ent struct {
@@ -488,7 +553,7 @@ func (m *model) checkTx(pre *nmView, t txInfo, res polyenv.Result, post *nmView,
 	want := map[string]ent{}
 	for _, e := range pre.Pool {
 		act := e.Status == node_manager.CandidateStatus || e.Status == node_manager.ConsensusStatus
-		if act && !blackedNow[e.Key] {
+		if act && !blackedNow[e.Canon] {
 			want[e.Key] = ent{e.Index, e.Addr.ToHexString()}
 		}
 	}
